@@ -30,7 +30,7 @@ own, with the columns the harness selects itself from a pristine copy of the inp
    (-> ctx.mismatch when the clauses above hold but the model disagrees).
 
 np.random is re-seeded at the start of every update / set_reference / reset of every
-stochastic member (kdq-tree, HDDDM, CDBD, NN-DVI) from a (case, call number, member index)
+stochastic member (kdq-tree, HDDDM, CDBD, NN-DVI, LinearFourRates) from a (case, call number, member index)
 schedule through a thin subclass, identically for the member inside the ensemble and its twin.
 """
 import copy, json, os, time, warnings
@@ -39,7 +39,7 @@ for _v in ("OMP_NUM_THREADS", "OPENBLAS_NUM_THREADS", "MKL_NUM_THREADS"):   # ca
 import core
 
 TRUST = [
-    "stochastic members (KdqTreeStreaming/Batch, HDDDM, CDBD, NNDVI) are used through a thin subclass that only re-seeds "
+    "stochastic members (KdqTreeStreaming/Batch, HDDDM, CDBD, NNDVI, LinearFourRates) are used through a thin subclass that only re-seeds "
     "np.random at the start of update/set_reference/reset from a (case, call, member) schedule, identically for member and twin",
     "member 'state' = deep snapshot of the object graph reachable from the detector's __dict__ (arrays bit-for-bit, frames with index and columns)",
     "a member (or its selector) that raises on a malformed input counts as 'the member's call raised'; the model's reset is total "
@@ -139,11 +139,11 @@ def first_diff(a, b, path=""):
 
 
 # ---------------------------------------------------------------- case generation
-STREAM_POOL = ["DDM", "EDDM", "STEPD", "ADWIN", "CUSUM", "PageHinkley", "KdqTreeStreaming"]
+STREAM_POOL = ["DDM", "EDDM", "STEPD", "LinearFourRates", "ADWIN", "CUSUM", "PageHinkley", "KdqTreeStreaming"]
 BATCH_POOL = ["KdqTreeBatch", "HDDDM", "CDBD", "NNDVI"]
 UNIVARIATE = {"ADWIN", "CUSUM", "PageHinkley", "CDBD"}
-LABEL_ONLY = {"DDM", "EDDM", "STEPD"}
-STOCHASTIC = {"KdqTreeStreaming", "KdqTreeBatch", "HDDDM", "CDBD", "NNDVI"}
+LABEL_ONLY = {"DDM", "EDDM", "STEPD", "LinearFourRates"}
+STOCHASTIC = {"KdqTreeStreaming", "KdqTreeBatch", "HDDDM", "CDBD", "NNDVI", "LinearFourRates"}
 NEEDS_REF = {"HDDDM", "CDBD", "NNDVI"}
 KEYS = ["zeta", "k1", "a", "Mx", "b2", "s_1", "d", "q9", "Alpha", "m"]
 
@@ -152,13 +152,21 @@ def pick(rng, xs):
     return xs[int(rng.integers(len(xs)))]
 
 
-def member_params(rng, cls):
+def member_params(rng, cls, eager=False):
+    if eager and cls in ("DDM", "EDDM", "STEPD"):    # quick to warn and alarm again after their own restart
+        return {"DDM": dict(n_threshold=5, warning_scale=1, drift_scale=pick(rng, [2, 3])),
+                "EDDM": dict(n_threshold=5, warning_thresh=0.95, drift_thresh=pick(rng, [0.9, 0.8])),
+                "STEPD": dict(window_size=5, alpha_warning=0.2, alpha_drift=pick(rng, [0.05, 0.003]))}[cls]
     if cls == "DDM":
         return dict(n_threshold=pick(rng, [5, 10, 30]), warning_scale=pick(rng, [1, 2]), drift_scale=pick(rng, [2, 3]))
     if cls == "EDDM":
         return dict(n_threshold=pick(rng, [5, 10, 30]), warning_thresh=pick(rng, [0.95, 0.9]), drift_thresh=pick(rng, [0.9, 0.8]))
     if cls == "STEPD":
         return dict(window_size=pick(rng, [5, 10, 30]), alpha_warning=pick(rng, [0.05, 0.2]), alpha_drift=pick(rng, [0.003, 0.05]))
+    if cls == "LinearFourRates":      # the only member for which y_true and y_pred are not interchangeable
+        return dict(time_decay_factor=pick(rng, [0.6, 0.9]), warning_level=pick(rng, [0.2, 0.1]), detect_level=pick(rng, [0.05, 0.01]),
+                    burn_in=pick(rng, [10, 20]), num_mc=15,
+                    rates_tracked=list(pick(rng, [["tpr", "tnr", "ppv", "npv"], ["tpr", "tnr"], ["tpr"], ["ppv", "npv"]])))
     if cls == "ADWIN":
         return dict(delta=pick(rng, [0.002, 0.05, 0.3]), max_buckets=pick(rng, [2, 5]), new_sample_thresh=pick(rng, [1, 8, 32]),
                     window_size_thresh=pick(rng, [4, 10]), subwindow_size_thresh=pick(rng, [2, 5]))
@@ -195,13 +203,16 @@ def gen_case(seed, tier, idx):
     pool = STREAM_POOL if kind == "stream" else BATCH_POOL
     keys = [KEYS[j] for j in rng.permutation(len(KEYS))[:n]]
     ekind = ["majority", "min", "ordered", "confirmed"][idx % 4]
+    warn_rich = ekind == "confirmed" and kind == "stream"
     members = []
     for j in range(n):
         cls = pick(rng, pool)
         if idx % 5 == 0 and j == 0:           # make sure the stochastic / recs-less classes occur often
             cls = "KdqTreeStreaming" if kind == "stream" else pick(rng, BATCH_POOL)
-        if ekind == "confirmed" and kind == "stream" and j == 1:   # a member that reports warnings
+        if warn_rich and j <= 1:          # members that report warnings, alarm, restart themselves and warn again
             cls = pick(rng, ["DDM", "EDDM", "STEPD"])
+        if kind == "stream" and idx % 5 == 1 and j == n - 1:
+            cls = "LinearFourRates"
         sel = None
         if cls in UNIVARIATE:
             if d > 1 or rng.random() < 0.5:
@@ -212,7 +223,7 @@ def gen_case(seed, tier, idx):
         else:
             if rng.random() < 0.7:
                 sel = [int(c) for c in rng.permutation(d)[: int(rng.integers(1, d + 1))]]   # order kept as drawn
-        members.append({"key": keys[j], "cls": cls, "params": member_params(rng, cls), "sel": sel})
+        members.append({"key": keys[j], "cls": cls, "params": member_params(rng, cls, eager=warn_rich), "sel": sel})
     # clones (same class, parameters and columns under another key) report drift at the same update, so that vote
     # counts between 1 and n occur although most detectors show "drift" for a single update only
     for j in range(1, n):
@@ -227,7 +238,8 @@ def gen_case(seed, tier, idx):
         a = int(rng.integers(1, n))
         el = ["ordered", a, int(rng.integers(0, n - a + 1))]
     else:
-        el = ["confirmed", int(rng.integers(1, min(n, 3) + 1)), int(rng.integers(0, 41) if kind == "stream" else rng.integers(0, 6))]
+        el = (["confirmed", int(rng.integers(1, 3)), int(rng.integers(5, 61))] if kind == "stream" else
+              ["confirmed", int(rng.integers(1, min(n, 3) + 1)), int(rng.integers(0, 6))])
     if kind == "stream":
         T = int(rng.integers(100, 601))
     else:
@@ -238,10 +250,20 @@ def gen_case(seed, tier, idx):
         return sorted(int(x) for x in rng.integers(T // 10, T, size=k))
     cols = [{"cps": changepoints(), "levels": [float(pick(rng, [0.0, 2.0, 4.0, -3.0, 8.0])) for _ in range(6)],
              "scale": float(pick(rng, [0.25, 1.0]))} for _ in range(d)]
-    err = {"cps": changepoints(), "levels": [float(pick(rng, [0.05, 0.1, 0.4, 0.7])) for _ in range(6)]}
+    # labels: P(y_true = 1) = p1; false-negative and false-positive rates have their own levels and change points (FN != FP,
+    # so that y_true and y_pred are not interchangeable)
+    if warn_rich:      # short alternating regimes: members alarm, restart and reach "warning" again while the election still waits
+        seg = int(rng.integers(8, 26))
+        cps = list(range(seg, T, seg))
+        fn = {"cps": cps, "levels": [0.02, 0.8, 0.05, 0.6, 0.02, 0.9]}
+        fp = {"cps": cps, "levels": [0.02, 0.5, 0.1, 0.9, 0.05, 0.3]}
+    else:
+        fn = {"cps": changepoints(), "levels": [float(pick(rng, [0.05, 0.2, 0.5, 0.8])) for _ in range(6)]}
+        fp = {"cps": changepoints(), "levels": [float(pick(rng, [0.02, 0.1, 0.3, 0.6])) for _ in range(6)]}
+    p1 = float(pick(rng, [0.3, 0.5, 0.7]))
     reset_policy = pick(rng, ["never", "on-drift", "on-drift-half", "random", "both"])
     return {"idx": idx, "seed": seed, "tier": tier, "kind": kind, "n": n, "d": d, "container": container, "members": members,
-            "election": el, "T": T, "cols": cols, "err": err, "reset_policy": reset_policy,
+            "election": el, "T": T, "cols": cols, "fn": fn, "fp": fp, "p1": p1, "reset_policy": reset_policy,
             "rows": int(pick(rng, [12, 20, 30])), "data_seed": int(rng.integers(2 ** 31)),
             "skip_first_setref": bool(rng.random() < 0.5), "pass_y_batch": bool(rng.random() < 0.3),
             "inject": bool(rng.random() < 0.6),
@@ -269,10 +291,10 @@ def run_case(case, stop_at=None):
     import numpy as np, pandas as pd
     from menelaus.ensemble import (StreamingEnsemble, BatchEnsemble, SimpleMajorityElection, MinimumApprovalElection,
                                    OrderedApprovalElection, ConfirmedElection)
-    from menelaus.concept_drift import DDM, EDDM, STEPD
+    from menelaus.concept_drift import DDM, EDDM, STEPD, LinearFourRates
     from menelaus.change_detection import ADWIN, CUSUM, PageHinkley
     from menelaus.data_drift import KdqTreeStreaming, KdqTreeBatch, HDDDM, CDBD, NNDVI
-    classes = dict(DDM=DDM, EDDM=EDDM, STEPD=STEPD, ADWIN=ADWIN, CUSUM=CUSUM, PageHinkley=PageHinkley,
+    classes = dict(DDM=DDM, EDDM=EDDM, STEPD=STEPD, LinearFourRates=LinearFourRates, ADWIN=ADWIN, CUSUM=CUSUM, PageHinkley=PageHinkley,
                    KdqTreeStreaming=KdqTreeStreaming, KdqTreeBatch=KdqTreeBatch, HDDDM=HDDDM, CDBD=CDBD, NNDVI=NNDVI)
     kind, n, d = case["kind"], case["n"], case["d"]
     stream = kind == "stream"
@@ -499,8 +521,9 @@ def run_case(case, stop_at=None):
             count("malformed updates injected")
         if stream:
             a = make_X(t, 1)
-            yt = int(rrng.integers(0, 2))
-            yp = yt if rrng.random() >= level_at(case["err"], t) else 1 - yt
+            yt = int(rrng.random() < case["p1"])
+            yp = yt if rrng.random() >= level_at(case["fn"] if yt == 1 else case["fp"], t) else 1 - yt
+            count("label pairs (y_true,y_pred)=(%d,%d)" % (yt, yp))
             if bad == "bad-y":
                 yt = [yt, yt]
             mk = malform(a, bad) if bad else (lambda: wrap(a))
@@ -518,6 +541,7 @@ def run_case(case, stop_at=None):
             else:
                 f_e = lambda: ens.update(Xe)
                 f_t = lambda j, tw: tw.update(X=select(j, mk()), y_true=None, y_pred=None)
+        ctr_before = list(getattr(twin_election, "wait_period_counters", None) or [])
         r = call_both(step, "update", f_e, f_t)
         if r is None:
             break
@@ -531,6 +555,8 @@ def run_case(case, stop_at=None):
             for j, sc in enumerate(scripts):
                 if sc[-1][0] == "D" and first_drift[j] is None:
                     first_drift[j] = t
+            if any(c != 0 and sc[-1][0] == "W" for c, sc in zip(ctr_before, scripts)):
+                count("updates where a member reports warning while its ConfirmedElection wait counter is non-zero")
             count("updates with %d of the members in drift" % min(3, sum(1 for sc in scripts if sc[-1][0] == "D")) if
                   sum(1 for sc in scripts if sc[-1][0] == "D") < 3 else "updates with 3+ of the members in drift")
             if bad:
@@ -581,7 +607,7 @@ def run(ctx):
     from concurrent.futures import ProcessPoolExecutor
     import menelaus  # noqa: F401  (import before forking)
     n_cases = 30 if ctx.quick else 300
-    ctx.rule = ("a case = one ensemble (2-5 members drawn from DDM, EDDM, STEPD, ADWIN, CUSUM, PageHinkley, KdqTreeStreaming / "
+    ctx.rule = ("a case = one ensemble (2-5 members drawn from DDM, EDDM, STEPD, LinearFourRates, ADWIN, CUSUM, PageHinkley, KdqTreeStreaming / "
                 "KdqTreeBatch, HDDDM, CDBD, NNDVI; one of the four elections; random column selectors; ndarray or DataFrame input) "
                 "driven through 100-600 updates with resets and set_reference calls interleaved, compared call by call with "
                 "independent twins and with the Lean model; non-trivial = at least two members first report drift at different updates")
@@ -640,7 +666,9 @@ def run(ctx):
     if not ctx.failing and not ctx.mismatches:
         if nt * 3 < n_cases or not ctx.stats.get("cases-with-ensemble-drift") or not ctx.stats.get("rejected calls") \
                 or not ctx.stats.get("updates with 2 of the members in drift") or not ctx.stats.get("updates with 3+ of the members in drift") \
-                or not (ctx.quick or ctx.stats.get("cases-with-ensemble-warning")) or not ctx.stats.get("reset calls") \
+                or not (ctx.quick or ctx.stats.get("cases-with-ensemble-warning")) \
+                or not ctx.stats.get("member-class:LinearFourRates") \
+                or not (ctx.quick or ctx.stats.get("updates where a member reports warning while its ConfirmedElection wait counter is non-zero")) or not ctx.stats.get("reset calls") \
                 or not ctx.stats.get("set_reference calls"):
             raise core.Infra(f"degenerate input distribution: {ctx.stats}")
 
